@@ -3,7 +3,6 @@
 package httputil
 
 import (
-	"bytes"
 	"context"
 	"fmt"
 	"io"
@@ -18,8 +17,35 @@ import (
 const seekData = "0123456789"
 
 type rangePeer struct {
-	bad    string
-	ranges []string
+	bad     string
+	ranges  []string
+	dataEOF bool // bodies deliver their last bytes together with io.EOF (as net/http does for Content-Length bodies)
+}
+
+// eofBody returns its final chunk together with io.EOF.
+type eofBody struct {
+	data []byte
+	pos  int
+}
+
+func (b *eofBody) Read(p []byte) (int, error) {
+	if b.pos >= len(b.data) {
+		return 0, io.EOF
+	}
+	n := copy(p, b.data[b.pos:])
+	b.pos += n
+	if b.pos >= len(b.data) {
+		return n, io.EOF
+	}
+	return n, nil
+}
+func (b *eofBody) Close() error { return nil }
+
+func (p *rangePeer) body(s string) io.ReadCloser {
+	if p.dataEOF {
+		return &eofBody{data: []byte(s)}
+	}
+	return io.NopCloser(strings.NewReader(s))
 }
 
 func (p *rangePeer) Do(req *http.Request) (*http.Response, error) {
@@ -41,8 +67,7 @@ func (p *rangePeer) Do(req *http.Request) (*http.Response, error) {
 		p.bad = "Range outside the blob: " + r
 		return &http.Response{StatusCode: http.StatusRequestedRangeNotSatisfiable, Header: http.Header{}, Request: req, Body: http.NoBody}, nil
 	}
-	return &http.Response{StatusCode: http.StatusPartialContent, Header: http.Header{}, Request: req,
-		Body: io.NopCloser(bytes.NewReader([]byte(seekData[start:])))}, nil
+	return &http.Response{StatusCode: http.StatusPartialContent, Header: http.Header{}, Request: req, Body: p.body(seekData[start:])}, nil
 }
 
 // VerifC13Seek: any sequence of k Read/Seek calls on the range-based ReadSeekCloser with 64-bit
@@ -50,13 +75,13 @@ func (p *rangePeer) Do(req *http.Request) (*http.Response, error) {
 // issued for 0 <= offset < size, and the bytes read are the blob's bytes at the logical position.
 func VerifC13Seek() {
 	k := verifrt.Param("k", 3)
-	peer := &rangePeer{}
+	peer := &rangePeer{dataEOF: verifrt.Bool()}
 	req, err := http.NewRequestWithContext(context.Background(), http.MethodGet, "https://r.io/v2/a/b/blobs/sha256:x", nil)
 	if err != nil {
 		panic(err)
 	}
 	size := int64(len(seekData))
-	rsc := NewReadSeekCloser(peer, req, io.NopCloser(strings.NewReader(seekData)), size)
+	rsc := NewReadSeekCloser(peer, req, peer.body(seekData), size)
 	pos := int64(0) // the logical position
 	for step := 0; step < k; step++ {
 		if verifrt.Bool() {
